@@ -217,6 +217,10 @@ def reset_shared():
 
 
 # ------------------------------------------------------------------ builder
+def _noop_hook(value):
+    return None
+
+
 def build_attr_value(v):
     t = v["t"]
     if t == "str":
@@ -402,10 +406,23 @@ def build_tag(r):
         t = mk(*attr_args)
         t.children += kids
         return t
+    if how == "used_as_context":
+        import sys as _sys
+
+        t = mk(*attr_args, *kids)
+        old = _sys.displayhook
+        _sys.displayhook = _noop_hook  # one and the same hook object for every build (it is remembered by the tag)
+        try:
+            with t:
+                pass
+        finally:
+            _sys.displayhook = old
+        return t
     if how == "insert_neg_list":
         # several nodes inserted at once at a negative index keep their order
-        if len(kids) < 2:
-            return mk(*attr_args, *kids)
+        single = ("text", "num", "tag", "html", "obj", "dep", "meta", "headc", "tfobj")
+        if len(kids) < 2 or r["c"][-1]["k"] not in single:
+            return mk(*attr_args, *kids)  # (the last argument must be exactly one node for index -1 to mean "before it")
         t = mk(*attr_args, kids[0], kids[-1])
         t.insert(-1, list(kids[1:-1]))
         return t
@@ -425,7 +442,7 @@ def build_tag(r):
 
 
 HOWS = ["ctor", "ctor", "ctor_mixed", "nested", "append", "append_many", "extend", "insert", "taglist", "toggle_ws", "reassign_children",
-        "slice_children", "iadd", "insert_neg_list", "extend_iter", "iadd_gen", "extend_map"]
+        "slice_children", "iadd", "insert_neg_list", "extend_iter", "iadd_gen", "extend_map", "used_as_context"]
 
 
 # ------------------------------------------------------------------ recipe helpers
